@@ -201,6 +201,7 @@ func init() {
 			g14ReservedProvenance(c)
 			g14AddNameUsed(c.Repo, c.Rep)
 			g8EveryRecordedCallRegistered(c.Repo, c.Rep)
+			g32ReserveDeclared(c)
 			g14ReservedBeforeNaming(c)
 			g17ArgTypesFromDeclaration(c)
 			g16Eq(c)
@@ -225,6 +226,7 @@ func init() {
 			g8PluginOrderFixed(c.Repo, c.Rep)
 			// helper names are minted from the plugin's current prefix and the name returned is the one that was tested to be free
 			g7NewName(c.Repo, c.Rep)
+			g32ReserveDeclared(c)
 			c.Rep.floor("G8", 150)
 			runR_C12(c)
 		},
